@@ -193,6 +193,9 @@ func (e *Engine) nilCheck(st *State, p Value, pos token.Pos) {
 }
 
 func (e *Engine) boundsCheck(st *State, idx, n *smt.Term, pos token.Pos, what string) {
+	if e.isNonNeg(idx) && e.C.UltNW(idx, n).IsTrue() {
+		return
+	}
 	e.safety(st, "bounds", e.C.Ult(idx, n), pos, what)
 }
 
@@ -285,10 +288,12 @@ func (e *Engine) sliceOp(st *State, t *ssa.Slice) Value {
 		if max != nil {
 			e.safety(st, "bounds", c.Ule(max, capv), t.Pos(), "slice bounds out of range (max)")
 			e.safety(st, "bounds", c.Ule(hi, max), t.Pos(), "slice bounds out of range (high>max)")
-		} else {
+		} else if !c.UleNW(hi, x.L[2]).IsTrue() { // hi <= len suffices, since len <= cap
 			e.safety(st, "bounds", c.Ule(hi, capv), t.Pos(), "slice bounds out of range (high)")
 		}
-		e.safety(st, "bounds", c.Ule(lo, hi), t.Pos(), "slice bounds out of range (low>high)")
+		if !c.UleNW(lo, hi).IsTrue() {
+			e.safety(st, "bounds", c.Ule(lo, hi), t.Pos(), "slice bounds out of range (low>high)")
+		}
 		ncap := c.Sub(capv, lo)
 		if max != nil {
 			ncap = c.Sub(max, lo)
